@@ -18,6 +18,11 @@ pub struct C11;
 impl Prop for C11 {
     type Case = Case;
     const ID: &'static str = "C11";
+    const FUZZ_TARGET: Option<&'static str> = Some("clean_norm");
+    const FUZZ_RUNS: u64 = 4000000;
+    fn fuzz_decode(bytes: &[u8]) -> Option<Case> {
+        crate::fuzzdec::c11(bytes)
+    }
     const RULE: &'static str = "code-point mode: arbitrary Unicode strings from fragment pools (every White_Space code point, CRLF, NBSP, ideographic space, zero-width non-spaces, combining marks, hazards, fully random strings); grapheme mode: segmentation-stable strings built from the closed cluster pool and whitespace fragments (asserting), arbitrary strings for totality. Oracle: clean(s) == s.split_whitespace().join(\" \") (std as the independent model) and its consequences, idempotence, word_boundaries against an independent scan over the character sequence, remove/full against filtered joins. Non-trivial: >= 2 whitespace runs one of which contains a non-ASCII whitespace or CRLF, and a multi-byte non-whitespace character. Distinct = distinct serialised case.";
     const ESSENTIAL: &'static [&'static str] = &["graphemes_stable", "code_points", "leading_ws", "trailing_ws", "non_ascii_ws", "crlf", "empty", "only_ws", "unstable_totality"];
 
